@@ -384,3 +384,28 @@ Fixpoint run_ok_remap (base : Z) (cap : node_resource) (live : list wres) (steps
   end.
 
 Definition ok_remap (c : case) : bool := run_ok_remap (c_base c) (ni_cap (c_init c)) [] (c_steps c).
+
+(* ---------- C15: cases of the repair check ---------- *)
+(* f_info: the record (capacity + drifted usage) before the repair; f_ws: the
+   recorded workloads; f_fits: the harness built the workloads by real
+   allocations on this capacity (they fit); observation 1 = FixNodeResource
+   (Manager.GetNodeResourceInfo fix=true), observation 2 = the check run again
+   without repair *)
+Record fixcase := mkFixCase {
+  f_info : node_info; f_ws : list wres; f_fits : bool;
+  f_usage1 : node_resource; f_diffs1 : diffs; f_failed1 : bool;
+  f_usage2 : node_resource; f_diffs2 : diffs }.
+
+Definition agree_fix (c : fixcase) : bool :=
+  let '(info', resp, d, failed) := fix_node_resource (f_info c) (f_ws c) in
+  nr_usage_eqb resp (f_usage1 c) && diffs_eqb d (f_diffs1 c) && Bool.eqb failed (f_failed1 c)
+  && nr_usage_eqb (ni_usage info') (f_usage2 c)
+  && diffs_eqb (get_diffs info' (f_ws c)) (f_diffs2 c).
+
+(* after the repair the usage is the sum of the recorded workloads and the
+   check reports no differences (for workloads that fit the capacity) *)
+Definition ok_fix (c : fixcase) : bool :=
+  if f_fits c then
+    negb (f_failed1 c) && no_diffs (f_diffs2 c)
+    && usage_is_sum (f_usage2 c) (f_ws c) (map (fun w => nano (wr_cpu_req w)) (f_ws c))
+  else true.
